@@ -70,6 +70,10 @@ pub fn run(id: &str, tier: Tier, seed: u64) -> Option<i32> {
 pub fn replay(id: &str, v: &serde_json::Value) -> Result<Option<String>, String> {
     match id {
         "C03" if v["kind"].as_str() == Some("dots") => c03dots::replay(v),
+        "C05" if v["kind"].as_str() == Some("hint") => {
+            let c = &v["case"];
+            Ok(c05::foreign_hint_case(c["preset"].as_u64().unwrap_or(12) as usize, c["hint"].as_i64().unwrap_or(0), c["how"].as_u64().unwrap_or(0) as u8).err())
+        }
         "C06" => c06::replay(v),
         "C07" => c07::replay(v),
         "C08" => c08::replay(v),
